@@ -188,6 +188,8 @@ pub enum PeerKind {
     TokenReply,
     /// answers FDL status requests only (passive station)
     StatusOnly,
+    /// answers FDL status requests only, with a response status other than OK (RR / RS / UE by address)
+    OddStatus,
     /// DP slave: answers FDL status requests and Slave_Diag requests (ident = 0x4000 + address)
     DpSlave,
     /// FDL-only station: answers FDL status requests; every other request gets the negative
@@ -228,6 +230,13 @@ impl VirtualNode for Peers {
             PeerKind::StatusOnly => {
                 if is_status {
                     normal
+                } else {
+                    return vec![];
+                }
+            }
+            PeerKind::OddStatus => {
+                if is_status {
+                    rc::encode(&RefFrame::Data { da: *sa, sa: *da, dsap: None, ssap: None, fc: [0x02u8, 0x03, 0x01][usize::from(*da) % 3], pdu: vec![] })
                 } else {
                     return vec![];
                 }
